@@ -83,6 +83,8 @@ func genSweep(t *rapid.T) *Case {
 		c.Cfg.Lines = 2
 	case 6:
 		c.Cfg.Lines = 3
+	case 7:
+		c.Cfg.Lines = 30 // enabled, never reached
 	default:
 		c.Cfg.Lines = 0
 	}
